@@ -223,6 +223,10 @@ package refopts
 //@ func (*refGroup).augmentFromConfig
 //@   modifies rg.filter, rg.Name
 //@   call 0 GetConfig assert keyof(arg_0) == catkeys("refgroup.", rg.Symbol)
+// ... and the prefix must name the subsection exactly: GetConfig treats a
+// prefix that ends in '.' as already containing the separator, so it would
+// return the entries of the group named by the prefix without its last dot.
+//@   call 0 GetConfig assert @exact-subsection len(rg.Symbol) == 0 || rg.Symbol[len(rg.Symbol)-1] != '.'
 //@   loop 0 step entry.Key == "name" ==> same(rg.Name, entry.Value) && rg.filter == prev(rg.filter)
 //@   loop 0 step entry.Key == "include" ==> same(rg.Name, prev(rg.Name)) && (forall r string :: apply(rg.filter, r) == ((prev(rg.filter) != nil && apply(prev(rg.filter), r)) || (len(entry.Value) == 0 || prefixMatch(entry.Value, r))))
 //@   loop 0 step entry.Key == "exclude" ==> same(rg.Name, prev(rg.Name)) && (forall r string :: apply(rg.filter, r) == ((prev(rg.filter) == nil || apply(prev(rg.filter), r)) && !(len(entry.Value) == 0 || prefixMatch(entry.Value, r))))
